@@ -44,4 +44,6 @@ def jobs(tier, seed):
     J += mjobs.send_early_jobs(tier)
     J += [j for j in mjobs.sendquery_jobs(tier) if "srv1" in j["name"] and ("_sib1" in j["name"] or "ex0" in j["name"])]
     J += mjobs.requeue_jobs(tier)
+    J += mjobs.close_jobs(tier)
+    J += mjobs.readanswers_jobs(tier)
     return J
